@@ -883,12 +883,15 @@ func mutateWire(b []byte, r *prng) ([]byte, string) {
 // a field that nests the same message type inside itself to a great depth cannot be built with
 // the API messages except through Userset / structpb; this one nests raw length-delimited fields
 func nestedRaw(field protowire.Number, depth int) []byte {
-	var b []byte
-	for i := 0; i < depth; i++ {
-		var u []byte
-		u = protowire.AppendTag(u, field, protowire.BytesType)
-		u = protowire.AppendBytes(u, b)
-		b = u
+	// sizes bottom-up, then the headers top-down (linear)
+	sizes := make([]int, depth+1) // sizes[i] = encoded size of i levels
+	for i := 1; i <= depth; i++ {
+		sizes[i] = protowire.SizeTag(field) + protowire.SizeBytes(sizes[i-1])
+	}
+	b := make([]byte, 0, sizes[depth])
+	for i := depth; i >= 1; i-- {
+		b = protowire.AppendTag(b, field, protowire.BytesType)
+		b = protowire.AppendVarint(b, uint64(sizes[i-1]))
 	}
 	return b
 }
